@@ -29,9 +29,11 @@ class C24(Check):
 
     # case: {"kind": "slow"|"fast"|"proc", "terms": [...], "n": iterations before cancel}
     def configs(self):
-        T = lambda pos, fm, rw, al=2: dict(pos=pos, **{"in": 8, "out": 4}, fmmu=fm, rw=rw, al=al)
+        T = lambda pos, fm, rw, al=2, fmmus=3: dict(pos=pos, **{"in": 8, "out": 4}, fmmu=fm, rw=rw, al=al, fmmus=fmmus)
         return [
             ("slow", [T(1001, True, True), T(1002, False, True)]),
+            # terminals with exactly two FMMUs, both taken (the input mapping does not get the slot its search starts at)
+            ("slow", [T(1001, True, True, fmmus=2), T(1002, True, True, 1, fmmus=2)]),
             ("slow", [T(1001, True, True, 1), T(1002, True, False, 4), T(1003, False, True, 8)]),
             ("fast", [T(1001, True, True), T(1002, False, True)]),
             ("fast", [T(1001, True, False), T(1002, True, True, 1)]),
@@ -257,7 +259,7 @@ class C24(Check):
         return out
 
     def rule(self):
-        return ("slow and fast sync groups over 2-3 simulated terminals (FMMU / direct, read-write / read-only, different start states) cancelled after n = 0..129 "
+        return ("slow and fast sync groups over 2-3 simulated terminals (FMMU / direct, read-write / read-only, different start states, 3 or exactly 2 FMMUs) cancelled after n = 0..129 "
                 "event-loop iterations (every iteration for the first configuration, every second otherwise; thorough: every one up to 259) - this covers "
                 "every await of start-up and the first cycles; wait_for_process cancelled after 0..8 iterations; the cyclic loop a process-based group's "
                 "subprocess runs, with the shared running flag cleared after n iterations, with and without all cyclic frames lost from then on; non-trivial = OPERATIONAL had been requested")
